@@ -59,8 +59,10 @@ Apply(k, code) ==
     [] k = "RSET" /\ code = 250 -> [S EXCEPT !.mail = FALSE, !.nrcpt = 0, !.mrcpts = <<>>, !.msender = 0]
     [] k = "AUTH" /\ code = 235 -> [S EXCEPT !.authed = TRUE]
     [] OTHER -> S
+\* (a 334 inside an AUTH exchange is an intermediate reply: the continuation line that follows is not a command)
+EvReply334 == /\ E.t = "reply" /\ E.code = 334 /\ S.cur.kind = "AUTH" /\ S.nfinal = 0 /\ bad' = bad /\ S' = S
 EvReply ==
-  /\ E.t = "reply"
+  /\ E.t = "reply" /\ ~(E.code = 334 /\ S.cur.kind = "AUTH" /\ S.nfinal = 0)
   /\ LET k == S.cur.kind
          err == E.code >= 400
          S1 == Apply(k, E.code)
@@ -97,7 +99,7 @@ EvAdvance == /\ E.t = "advance" /\ S' = S
 EvBundle == /\ E.t = "bundle" /\ S' = S
             /\ bad' = bad \cup Flag("C09_SameAcrossSegmentations", \A r \in 2..Len(E.runs) : E.runs[r] = E.runs[1])
                           \cup Flag("C09_Framing", E.units_answered)
-Next == /\ l <= Len(Tr) /\ (EvCmd \/ EvCb \/ EvReply \/ EvHandoff \/ EvClosed \/ EvAdvance \/ EvBundle) /\ l' = l + 1 /\ UNCHANGED tid
+Next == /\ l <= Len(Tr) /\ (EvCmd \/ EvCb \/ EvReply \/ EvReply334 \/ EvHandoff \/ EvClosed \/ EvAdvance \/ EvBundle) /\ l' = l + 1 /\ UNCHANGED tid
 Spec == Init /\ [][Next]_vars
 AtEnd == l = Len(Tr) + 1
 Watch == AtEnd => PrintT(<<"END", T.id, bad \cup Flag("C07_OneReply", Finished)>>)
